@@ -87,17 +87,50 @@ def check(repo, rep):
             it = arg[2][0][1]
             # the iterable must be the checked view of `others`
             okc = False
+            recognised = False
             if it[0] == 'call' and it[1][0] == 'attr' and it[1][1] == ('self',):
                 h = cx.model.find_method('core', cls, it[1][2])
                 if h:
-                    for hl in cx.leaves_of(*h):
+                    gen_ok = []
+                    for hl in cx.leaves_dyn(h):
                         ents = [e for e in hl.effects if e[0] == 'loop-enter']
-                        if not ents:
-                            continue
-                        elem = ('elem', ents[0][1])
-                        ic = [i for i, e in enumerate(hl.effects) if e[0] == 'call' and ischeck(e[1], elem)]
-                        iy = [i for i, e in enumerate(hl.effects) if e[0] == 'yield' and e[1] == elem]
-                        okc = bool(ic) and bool(iy) and ents[0][1] == ('p', h[2].args.args[1].arg)
+                        if ents:
+                            recognised = True
+                            if hl.outcome == 'raise':
+                                continue                       # the check (or the iteration) raised: nothing is handed over
+                            elem = ('elem', ents[0][1])
+                            ic = [i for i, e in enumerate(hl.effects) if e[0] == 'call' and ischeck(e[1], elem)]
+                            iy = [i for i, e in enumerate(hl.effects) if e[0] == 'yield' and e[1] == elem]
+                            # EVERY way through an iteration checks the element and then hands over that very element, once
+                            gen_ok.append(len(ic) >= 1 and len(iy) == 1 and ents[0][1] == ('p', h[2].args.args[1].arg))      # (check before or after the yield: join consumes the whole iterable before it produces anything)
+                            okc = all(gen_ok)
+                        elif hl.outcome == 'return' and hl.value and hl.value[0] == 'call' and hl.value[1][0] == 'g':
+                            # the checked view is an iterator object of the package: its __next__ hands over what next() of the
+                            # wrapped iterator gave, after the parameter check of the reference region (= self) on that very item
+                            lk = cx.model.lookup(hl.value[1])
+                            nx = cx.model.find_method(hl.value[1][1], lk[1], '__next__') if lk and lk[0] == 'class' else None
+                            if nx and checker is not None:
+                                from ..facts import ctor_fields
+                                cf = ctor_fields(cx, hl.value)
+                                idefs = cx.field_defs(lk[1]._home, lk[1].name)
+                                ref_f = [f for f, ds in idefs.items() if any(d['method'] == '__init__' and d['value'][0] == 'p' and cf.get(d['value'][1]) == ('self',) for d in ds)]
+                                oth_f = [f for f, ds in idefs.items() if any(d['method'] == '__init__' and d['value'][0] == 'p' and cf.get(d['value'][1]) == ('p', h[2].args.args[1].arg) for d in ds)]
+                                rets = [l2 for l2 in cx.leaves_of(nx[0], nx[1], nx[2]) if l2.outcome == 'return']
+                                good = bool(rets) and bool(ref_f) and bool(oth_f)
+                                for l2 in rets:
+                                    v2 = l2.value
+                                    is_next = v2 is not None and v2[0] == 'call' and v2[1] == ('b', 'next') and len(v2[2]) >= 1
+                                    chk = [e for e in l2.effects if e[0] == 'call' and e[1][0] == 'call' and e[1][1][0] == 'attr' and e[1][1][2] == checker.name
+                                           and e[1][1][1][0] == 'attr' and e[1][1][1][1] == ('self',) and e[1][1][1][2] in ref_f and e[1][2] == (v2,)]
+                                    good = good and is_next and bool(chk)
+                                recognised = True
+                                okc = good
+            jfn_ = cx.fn('core', 'AudioRegion.join')
+            if not recognised and it == ('p', jfn_.args.args[1].arg):
+                recognised, okc = True, False          # the raw argument is joined: no element is checked as it is handed over
+            if not recognised:
+                rep.unknown('AudioRegion.join: how the iterable %s checks each element was not recognised (neither a checking generator nor a checking iterator class)' % show(it)[:80])
+                continue
             rep.ob('every joined element passes the parameter check in the iteration that hands it over', okc, W(l.node), 'AudioRegion.join:check-each', 'iterable is %s' % show(it)[:100])
     # ---------------------------------------------------------------- __mul__ / __rmul__
     ml = cx.leaves('core', 'AudioRegion.__mul__')
